@@ -25,6 +25,7 @@ def run_check(prop: str, tier: str, repo_root: str) -> int:
         print(f"ANALYSIS-ERROR property={prop}: the rule module does not load")
         traceback.print_exc()
         return 2
+    run = None
     try:
         repo = Repo(repo_root)
         run = Run(prop, tier, repo.root, getattr(mod, "EXPLANATION", ""))
@@ -38,6 +39,15 @@ def run_check(prop: str, tier: str, repo_root: str) -> int:
                 selftest.attach(run, repo)
         return run.finish(seed)
     except AnalysisError as e:
+        # a violation established before the analysis had to stop is still a violation (it takes precedence, like it does
+        # over a vacuity floor); without one the run is an analysis error
+        if run is not None and run.has_unlisted():
+            run.note(f"the analysis stopped early: {e}")
+            run.floor_failures = []
+            try:
+                return run.finish(seed)
+            except AnalysisError:
+                pass
         print(f"ANALYSIS-ERROR property={prop}: {e}")
         return 2
     except Exception:
